@@ -375,7 +375,11 @@ func floatPow(a, b Float) (Object, error) {
 	if x == 0 && y < 0 && !math.IsInf(y, -1) {
 		return nil, ExceptionNewf(ZeroDivisionError, "0.0 cannot be raised to a negative power")
 	}
-	return Float(math.Pow(x, y)), nil
+	r := math.Pow(x, y)
+	if math.IsInf(r, 0) && !math.IsInf(x, 0) && !math.IsInf(y, 0) {
+		return nil, ExceptionNewf(OverflowError, "(34, 'Numerical result out of range')")
+	}
+	return Float(r), nil
 }
 
 func (a Float) M__pow__(other, modulus Object) (Object, error) {
